@@ -924,7 +924,12 @@ func genScenarios(p *pool, r *gen.Rand, n int) []scenario {
 		return fs
 	}
 	for len(out) < n {
-		switch k := r.Intn(10); {
+		k := r.Intn(10)
+		// the first scenarios cover every class once, whatever the seed
+		if len(out) < 4 {
+			k = []int{0, 4, 6, 9}[len(out)]
+		}
+		switch {
 		case k < 4: // merge of simple shards (+ an unrelated shard standing by)
 			ins := pickSimples(r.Range(1, 3))
 			sc := scenario{Cmd: "merge", Class: "simple"}
@@ -939,6 +944,9 @@ func genScenarios(p *pool, r *gen.Rand, n int) []scenario {
 			out = append(out, sc)
 		case k < 6: // merge involving a compound shard with a tombstone sidecar
 			c := p.compound[r.Intn(len(p.compound))]
+			if len(out) < 4 {
+				c = p.compound[0] // the one with a tombstone sidecar
+			}
 			ins := append([]fileSpec{c}, pickSimples(r.Range(0, 2))...)
 			gen.Shuffle(r, ins)
 			sc := scenario{Cmd: "merge", Class: "compound"}
@@ -963,6 +971,9 @@ func genScenarios(p *pool, r *gen.Rand, n int) []scenario {
 			out = append(out, sc)
 		default: // explode
 			c := p.compound[r.Intn(len(p.compound))]
+			if len(out) < 4 {
+				c = p.compound[0]
+			}
 			sc := scenario{Cmd: "explode", Class: "compound", Files: []fileSpec{c}, Inputs: []string{c.Base}}
 			sc.Files = append(sc.Files, pickSimples(r.Range(0, 2))...)
 			sc.Files = append(sc.Files, bystanders()...)
@@ -1117,7 +1128,7 @@ func main() {
 	}
 	fmt.Fprintf(os.Stderr, "c35: binary + fixture pool ready after %v\n", time.Since(t0).Round(time.Millisecond))
 	rn := &runner{bin: bin, work: work}
-	par := 8
+	par := 12
 	if v := os.Getenv("C35_PAR"); v != "" {
 		par, _ = strconv.Atoi(v)
 	}
@@ -1169,8 +1180,8 @@ func main() {
 	}
 
 	r := gen.NewRand(f.Seed)
-	nScen := f.N(6, 60)
-	perScen := f.N(5, 0) // thorough: every mutation point, fail and kill
+	nScen := f.N(6, 40)
+	perScen := f.N(4, 0) // thorough: every mutation point, fail and kill
 	scs := genScenarios(p, r, nScen)
 	// baselines
 	var bases []*job
